@@ -92,7 +92,7 @@ func (h *H) second(n int) {
 			}
 			obs = append(obs, tokens(outs, deliv))
 			if !framesEqual(outs, exp.Replies) || exp.Deliver != (len(deliv) == 1) {
-				fail(fmt.Sprintf("class=%s: reply %s, prescribed %s", exp.Class, hexes(outs), hexes(exp.Replies)))
+				fail(fmt.Sprintf("class=%s: reply differs on the first session", exp.Class))
 			}
 			if selOf(r.Conn.State()) != b01(o.Sel) {
 				fail("State() differs from the acknowledged selected state")
@@ -124,7 +124,7 @@ func (h *H) second(n int) {
 				obs = append(obs, fmt.Sprintf("r%d", k))
 			} else {
 				obs = append(obs, fmt.Sprintf("a%d", k))
-				fail(fmt.Sprintf("connection #%d was not refused (closed=%v, frames read %s)", k, down, hexes(outs)))
+				fail("a further connection was not refused")
 			}
 			_ = p.Conn.Close()
 			c.Count("second:intruders")
